@@ -1,1 +1,565 @@
-//! placeholder (filled below)
+//! Content-pack scenarios: an insertion sequence driven through the real creator (bare
+//! ContentPackCreator or BasicCreator in its three packagings), the reference model (a list of
+//! byte strings + the abstract creator state) and the read-back through the real reader.
+
+use crate::gen::{payload, Entropy};
+use jubako as jbk;
+use jbk::creator::{CompHint, Compression, ConcatMode, ContentAdder, InputReader};
+use jbk::reader::MayMissPack;
+use serde_json::{json, Value as J};
+use std::io::Read;
+use std::path::{Path, PathBuf};
+use std::rc::Rc;
+use std::sync::{Arc, Mutex};
+
+pub const CLUSTER_SIZE: u64 = 4 * 1024 * 1024;
+pub const MAX_BLOBS: usize = 0xFFF;
+
+#[derive(Clone, Copy, Debug, PartialEq, Eq)]
+pub enum Comp {
+    None,
+    Lz4(u32),
+    Lzma(u32),
+    Zstd(i32),
+}
+
+impl Comp {
+    pub fn to_jbk(self) -> Compression {
+        match self {
+            Comp::None => Compression::None,
+            Comp::Lz4(l) => Compression::Lz4(jbk_ranged_u32::<0, 15>(l)),
+            Comp::Lzma(l) => Compression::Lzma(jbk_ranged_u32::<0, 9>(l)),
+            Comp::Zstd(l) => Compression::Zstd(jbk_ranged_i32::<-22, 22>(l)),
+        }
+    }
+    pub fn nibble(self) -> u8 {
+        match self {
+            Comp::None => 0,
+            Comp::Lz4(_) => 1,
+            Comp::Lzma(_) => 2,
+            Comp::Zstd(_) => 3,
+        }
+    }
+    pub fn name(self) -> String {
+        format!("{self:?}")
+    }
+    pub fn parse(s: &str) -> Comp {
+        let (k, l) = match s.find('(') {
+            Some(i) => (&s[..i], s[i + 1..s.len() - 1].parse::<i64>().unwrap()),
+            None => (s, 0),
+        };
+        match k {
+            "None" => Comp::None,
+            "Lz4" => Comp::Lz4(l as u32),
+            "Lzma" => Comp::Lzma(l as u32),
+            "Zstd" => Comp::Zstd(l as i32),
+            _ => panic!("bad compression {s}"),
+        }
+    }
+}
+
+// deranged is a dependency of jubako only; its ranged ints are built through the public
+// `Compression` constructors' types by conversion from the base type.
+fn jbk_ranged_u32<const A: u32, const B: u32>(v: u32) -> deranged_shim::RU32<A, B> {
+    deranged_shim::RU32::<A, B>::new(v).expect("level in range")
+}
+fn jbk_ranged_i32<const A: i32, const B: i32>(v: i32) -> deranged_shim::RI32<A, B> {
+    deranged_shim::RI32::<A, B>::new(v).expect("level in range")
+}
+mod deranged_shim {
+    pub use deranged::RangedI32 as RI32;
+    pub use deranged::RangedU32 as RU32;
+}
+
+#[derive(Clone, Copy, Debug, PartialEq, Eq)]
+pub enum Hint {
+    Yes,
+    No,
+    Detect,
+}
+impl Hint {
+    pub fn to_jbk(self) -> CompHint {
+        match self {
+            Hint::Yes => CompHint::Yes,
+            Hint::No => CompHint::No,
+            Hint::Detect => CompHint::Detect,
+        }
+    }
+}
+
+#[derive(Clone, Copy, Debug, PartialEq, Eq)]
+pub enum Src {
+    Memory,
+    FileWhole,
+    /// a sub-range starting at a non-zero origin of a larger file
+    FileRange,
+}
+
+#[derive(Clone, Debug)]
+pub struct Item {
+    pub len: usize,
+    pub entropy: Entropy,
+    pub hint: Hint,
+    pub src: Src,
+    /// payload tag; two items with equal (len, entropy, tag) are byte-identical
+    pub tag: u64,
+}
+
+impl Item {
+    pub fn bytes(&self) -> Vec<u8> {
+        payload(self.len, self.entropy, self.tag)
+    }
+    pub fn json(&self) -> J {
+        json!({"len": self.len, "entropy": format!("{:?}", self.entropy), "hint": format!("{:?}", self.hint), "src": format!("{:?}", self.src), "tag": self.tag})
+    }
+    pub fn from_json(j: &J) -> Item {
+        Item {
+            len: j["len"].as_u64().unwrap() as usize,
+            entropy: if j["entropy"] == "Low" { Entropy::Low } else { Entropy::High },
+            hint: match j["hint"].as_str().unwrap() {
+                "Yes" => Hint::Yes,
+                "No" => Hint::No,
+                _ => Hint::Detect,
+            },
+            src: match j["src"].as_str().unwrap() {
+                "Memory" => Src::Memory,
+                "FileWhole" => Src::FileWhole,
+                _ => Src::FileRange,
+            },
+            tag: j["tag"].as_u64().unwrap(),
+        }
+    }
+}
+
+#[derive(Clone, Copy, Debug, PartialEq, Eq)]
+pub enum Packaging {
+    /// ContentPackCreator::new on a file, read with ContentPack::new
+    Bare,
+    OneFile,
+    TwoFiles,
+    NoConcat,
+}
+
+#[derive(Clone, Debug)]
+pub struct Pre {
+    /// one-byte blobs put into the raw slot (hint No) before the sequence
+    pub raw_blobs: usize,
+    /// one-byte blobs put into the compressed slot (hint Yes)
+    pub comp_blobs: usize,
+    /// one low-entropy content of that many bytes into the compressed slot
+    pub comp_bytes: usize,
+    /// one content of that many bytes into the raw slot
+    pub raw_bytes: usize,
+}
+
+impl Pre {
+    pub fn none() -> Pre {
+        Pre { raw_blobs: 0, comp_blobs: 0, comp_bytes: 0, raw_bytes: 0 }
+    }
+    pub fn json(&self) -> J {
+        json!({"raw_blobs": self.raw_blobs, "comp_blobs": self.comp_blobs, "comp_bytes": self.comp_bytes, "raw_bytes": self.raw_bytes})
+    }
+    pub fn from_json(j: &J) -> Pre {
+        Pre {
+            raw_blobs: j["raw_blobs"].as_u64().unwrap() as usize,
+            comp_blobs: j["comp_blobs"].as_u64().unwrap() as usize,
+            comp_bytes: j["comp_bytes"].as_u64().unwrap() as usize,
+            raw_bytes: j["raw_bytes"].as_u64().unwrap() as usize,
+        }
+    }
+    pub fn items(&self) -> Vec<Item> {
+        let mut v = vec![];
+        if self.raw_bytes > 0 {
+            v.push(Item { len: self.raw_bytes, entropy: Entropy::Low, hint: Hint::No, src: Src::Memory, tag: 9001 });
+        }
+        if self.comp_bytes > 0 {
+            v.push(Item { len: self.comp_bytes, entropy: Entropy::Low, hint: Hint::Yes, src: Src::Memory, tag: 9002 });
+        }
+        for i in 0..self.raw_blobs {
+            v.push(Item { len: 1, entropy: Entropy::Low, hint: Hint::No, src: Src::Memory, tag: 10_000 + i as u64 });
+        }
+        for i in 0..self.comp_blobs {
+            v.push(Item { len: 1, entropy: Entropy::Low, hint: Hint::Yes, src: Src::Memory, tag: 20_000 + i as u64 });
+        }
+        v
+    }
+}
+
+#[derive(Clone, Debug)]
+pub struct Scenario {
+    pub comp: Comp,
+    pub cached: bool,
+    pub packaging: Packaging,
+    pub pre: Pre,
+    pub items: Vec<Item>,
+}
+
+impl Scenario {
+    pub fn json(&self) -> J {
+        json!({"comp": self.comp.name(), "cached": self.cached, "packaging": format!("{:?}", self.packaging),
+               "pre": self.pre.json(), "items": self.items.iter().map(|i| i.json()).collect::<Vec<_>>()})
+    }
+    pub fn from_json(j: &J) -> Scenario {
+        Scenario {
+            comp: Comp::parse(j["comp"].as_str().unwrap()),
+            cached: j["cached"].as_bool().unwrap(),
+            packaging: match j["packaging"].as_str().unwrap() {
+                "Bare" => Packaging::Bare,
+                "OneFile" => Packaging::OneFile,
+                "TwoFiles" => Packaging::TwoFiles,
+                _ => Packaging::NoConcat,
+            },
+            pre: Pre::from_json(&j["pre"]),
+            items: j["items"].as_array().unwrap().iter().map(Item::from_json).collect(),
+        }
+    }
+    pub fn all_items(&self) -> Vec<Item> {
+        let mut v = self.pre.items();
+        v.extend(self.items.iter().cloned());
+        v
+    }
+}
+
+// ------------------------------------------------------------------ the abstract creator model
+
+fn shannon_entropy(data: &[u8]) -> f32 {
+    let mut entropy = 0.0f32;
+    let mut counts = [0usize; 256];
+    for b in data {
+        counts[*b as usize] += 1;
+    }
+    for &c in &counts {
+        if c == 0 {
+            continue;
+        }
+        let p = (c as f32) / (data.len() as f32);
+        entropy -= p * p.log(2.0);
+    }
+    entropy
+}
+
+/// Does the creator put this content into the compressed slot? (`None` = the model does not
+/// decide: Detect within 0.05 bit of the threshold.)
+pub fn model_compress(comp: Comp, item: &Item, bytes: &[u8]) -> Option<bool> {
+    if comp == Comp::None {
+        return Some(false);
+    }
+    match item.hint {
+        Hint::Yes => Some(true),
+        Hint::No => Some(false),
+        Hint::Detect => {
+            let head = &bytes[..bytes.len().min(4096)];
+            let e = shannon_entropy(head);
+            if e.is_nan() {
+                // empty content: 0/0; NaN <= 6.0 is false
+                return Some(false);
+            }
+            if (e - 6.0).abs() < 0.05 {
+                None
+            } else {
+                Some(e <= 6.0)
+            }
+        }
+    }
+}
+
+#[derive(Clone, Debug, Default, PartialEq, Eq, Hash)]
+pub struct Slot {
+    pub open: bool,
+    pub id: u32,
+    pub count: usize,
+    pub bytes: u64,
+}
+
+/// Abstract creator state: the two open-cluster slots, next cluster id, contents so far.
+#[derive(Clone, Debug, Default, PartialEq, Eq, Hash)]
+pub struct AbsState {
+    pub raw: Slot,
+    pub comp: Slot,
+    pub next_cluster: u32,
+    pub contents: u32,
+    /// clusters handed to the writer so far: (id, compressed)
+    pub closed: Vec<(u32, bool)>,
+}
+
+impl AbsState {
+    /// Model of `ContentPackCreator::add_content`; returns (cluster id, blob idx) of the content.
+    pub fn add(&mut self, size: u64, compressed: bool) -> (u32, usize) {
+        let next = &mut self.next_cluster;
+        let closed = &mut self.closed;
+        let slot = if compressed { &mut self.comp } else { &mut self.raw };
+        let full = slot.open
+            && (slot.count == MAX_BLOBS
+                || (compressed && slot.count > 0 && slot.bytes + size > CLUSTER_SIZE));
+        if !slot.open || full {
+            if slot.open {
+                closed.push((slot.id, compressed));
+            }
+            *slot = Slot { open: true, id: *next, count: 0, bytes: 0 };
+            *next += 1;
+        }
+        let r = (slot.id, slot.count);
+        slot.count += 1;
+        slot.bytes += size;
+        self.contents += 1;
+        r
+    }
+    pub fn finalize(&mut self) {
+        if self.raw.open && self.raw.count > 0 {
+            self.closed.push((self.raw.id, false));
+        }
+        if self.comp.open && self.comp.count > 0 {
+            self.closed.push((self.comp.id, true));
+        }
+    }
+    /// small key for state counting (slot fill classes rather than exact bytes)
+    pub fn key(&self) -> String {
+        format!(
+            "r{}:{}:{} c{}:{}:{} n{} k{}",
+            self.raw.open as u8, self.raw.count, self.raw.bytes, self.comp.open as u8, self.comp.count, self.comp.bytes,
+            self.next_cluster, self.contents
+        )
+    }
+}
+
+// ------------------------------------------------------------------ progress recorder
+
+#[derive(Default)]
+pub struct Recorder {
+    pub new_clusters: Mutex<Vec<(u32, bool)>>,
+    pub written: Mutex<Vec<u32>>,
+}
+impl jbk::creator::Progress for Recorder {
+    fn new_cluster(&self, idx: u32, compressed: bool) {
+        self.new_clusters.lock().unwrap().push((idx, compressed));
+    }
+    fn handle_cluster_written(&self, idx: u32) {
+        self.written.lock().unwrap().push(idx);
+    }
+}
+
+struct NoEntries;
+impl jbk::creator::EntryStoreTrait for NoEntries {
+    fn finalize(self: Box<Self>, _directory_pack: &mut jbk::creator::DirectoryPackCreator) {}
+}
+
+/// An entry store listing every content address (so that OneFile/TwoFiles/NoConcat containers
+/// also carry a directory with something in it).
+pub struct AddrEntries(pub Vec<jbk::ContentAddress>);
+impl jbk::creator::EntryStoreTrait for AddrEntries {
+    fn finalize(self: Box<Self>, directory_pack: &mut jbk::creator::DirectoryPackCreator) {
+        use jbk::creator::schema;
+        let schema = schema::Schema::<&'static str, &'static str>::new(
+            schema::CommonProperties::new(vec![
+                schema::Property::new_content_address("content"),
+                schema::Property::new_uint("n"),
+            ]),
+            vec![],
+            None,
+        );
+        let mut store = Box::new(jbk::creator::EntryStore::new(schema, None));
+        for (i, a) in self.0.iter().enumerate() {
+            store.add_entry(jbk::creator::BasicEntry::new_from_schema(
+                &store.schema,
+                None,
+                std::collections::HashMap::from([
+                    ("content", jbk::Value::Content(*a)),
+                    ("n", jbk::Value::Unsigned(i as u64)),
+                ]),
+            ));
+        }
+        let n = self.0.len() as u32;
+        let id = directory_pack.add_entry_store(store);
+        directory_pack.create_index("contents", Default::default(), 0.into(), id, n.into(), jbk::EntryIdx::from(0).into());
+    }
+}
+
+pub const VENDOR: [u8; 4] = [0x6a, 0x6d, 0x63, 0x01];
+
+fn make_reader(item: &Item, bytes: &[u8], dir: &Path, n: usize) -> std::io::Result<Box<dyn InputReader>> {
+    Ok(match item.src {
+        Src::Memory => Box::new(std::io::Cursor::new(bytes.to_vec())),
+        Src::FileWhole => {
+            let p = dir.join(format!("in{n}.bin"));
+            std::fs::write(&p, bytes)?;
+            Box::new(jbk::creator::InputFile::open(&p)?)
+        }
+        Src::FileRange => {
+            let p = dir.join(format!("in{n}.bin"));
+            let mut all = payload(37, Entropy::High, 77);
+            all.extend_from_slice(bytes);
+            all.extend_from_slice(&payload(53, Entropy::High, 78));
+            std::fs::write(&p, &all)?;
+            Box::new(jbk::creator::InputFile::new_range(std::fs::File::open(&p)?, 37, Some(bytes.len() as u64))?)
+        }
+    })
+}
+
+pub struct Created {
+    /// entry-point file (bare content pack, or the container / manifest file)
+    pub path: PathBuf,
+    /// address returned per inserted item
+    pub addrs: Vec<(u16, u32)>,
+    /// new_cluster callbacks in order
+    pub new_clusters: Vec<(u32, bool)>,
+    /// handle_cluster_written callbacks in order
+    pub written: Vec<u32>,
+}
+
+/// Drive the real creator with the scenario. Errors/panics are reported as Err(text).
+pub fn create(sc: &Scenario, dir: &Path) -> Result<Created, String> {
+    let rec = Arc::new(Recorder::default());
+    let items = sc.all_items();
+    let mut addrs = vec![];
+    let r = crate::catch(|| -> Result<PathBuf, String> {
+        let add_all = |adder: &mut dyn ContentAdder, addrs: &mut Vec<(u16, u32)>| -> Result<(), String> {
+            for (n, it) in items.iter().enumerate() {
+                let bytes = it.bytes();
+                let reader = make_reader(it, &bytes, dir, n).map_err(|e| format!("input: {e}"))?;
+                let a = adder
+                    .add_content(reader, it.hint.to_jbk())
+                    .map_err(|e| format!("add_content #{n}: {e}"))?;
+                addrs.push((a.pack_id.into_u16(), a.content_id.into_u32()));
+            }
+            Ok(())
+        };
+        match sc.packaging {
+            Packaging::Bare => {
+                let path = dir.join("pack.jbkc");
+                let p = camino::Utf8PathBuf::from_path_buf(path.clone()).unwrap();
+                let creator = jbk::creator::ContentPackCreator::new_with_progress(
+                    &p,
+                    jbk::PackId::from(1),
+                    jbk::VendorId::from(VENDOR),
+                    Default::default(),
+                    sc.comp.to_jbk(),
+                    rec.clone(),
+                )
+                .map_err(|e| format!("creator: {e}"))?;
+                let creator = if sc.cached {
+                    let mut cached = jbk::creator::CachedContentAdder::new(creator, Rc::new(()));
+                    add_all(&mut cached, &mut addrs)?;
+                    cached.into_inner()
+                } else {
+                    let mut c = creator;
+                    add_all(&mut c, &mut addrs)?;
+                    c
+                };
+                creator.finalize().map_err(|e| format!("finalize: {e}"))?;
+                Ok(path)
+            }
+            mode => {
+                let path = dir.join("out.jbk");
+                let p = camino::Utf8PathBuf::from_path_buf(path.clone()).unwrap();
+                let cm = match mode {
+                    Packaging::OneFile => ConcatMode::OneFile,
+                    Packaging::TwoFiles => ConcatMode::TwoFiles,
+                    _ => ConcatMode::NoConcat,
+                };
+                let creator = jbk::creator::BasicCreator::new(&p, cm, jbk::VendorId::from(VENDOR), sc.comp.to_jbk(), rec.clone())
+                    .map_err(|e| format!("creator: {e}"))?;
+                let creator = if sc.cached {
+                    let mut cached = jbk::creator::CachedContentAdder::new(creator, Rc::new(()));
+                    add_all(&mut cached, &mut addrs)?;
+                    cached.into_inner()
+                } else {
+                    let mut c = creator;
+                    add_all(&mut c, &mut addrs)?;
+                    c
+                };
+                let entries = AddrEntries(
+                    addrs
+                        .iter()
+                        .map(|(p, c)| jbk::ContentAddress::new(jbk::PackId::from(*p), jbk::ContentIdx::from(*c)))
+                        .collect(),
+                );
+                creator.finalize(Box::new(entries), vec![]).map_err(|e| format!("finalize: {e}"))?;
+                Ok(path)
+            }
+        }
+    });
+    let _ = NoEntries;
+    let path = match r {
+        Ok(Ok(p)) => p,
+        Ok(Err(e)) => return Err(e),
+        Err(p) => return Err(format!("panic {p}")),
+    };
+    let new_clusters = rec.new_clusters.lock().unwrap().clone();
+    let written = rec.written.lock().unwrap().clone();
+    Ok(Created { path, addrs, new_clusters, written })
+}
+
+/// Read everything of a ByteRegion through its stream.
+pub fn read_region(r: &jbk::reader::ByteRegion) -> Result<Vec<u8>, String> {
+    let mut v = Vec::with_capacity(r.size().into_u64() as usize);
+    r.stream().read_to_end(&mut v).map_err(|e| format!("{e}"))?;
+    Ok(v)
+}
+
+pub enum Opened {
+    Bare(jbk::reader::ContentPack),
+    Container(jbk::reader::Container),
+}
+
+pub fn open(path: &Path, packaging: Packaging) -> Result<Opened, String> {
+    match packaging {
+        Packaging::Bare => {
+            let fs = jbk::FileSource::open(path).map_err(|e| format!("{e}"))?;
+            Ok(Opened::Bare(
+                jbk::reader::ContentPack::new(jbk::Reader::from(fs)).map_err(|e| format!("{e}"))?,
+            ))
+        }
+        _ => Ok(Opened::Container(
+            jbk::reader::Container::new(path).map_err(|e| format!("{e}"))?,
+        )),
+    }
+}
+
+pub enum Got {
+    Bytes(Vec<u8>),
+    NoSuchContent,
+    NoSuchPack,
+    Missing,
+}
+
+impl Opened {
+    pub fn get(&self, pack: u16, content: u32) -> Result<Got, String> {
+        match self {
+            Opened::Bare(p) => {
+                if pack != 1 {
+                    return Ok(Got::NoSuchPack);
+                }
+                match p.get_content(jbk::ContentIdx::from(content)).map_err(|e| format!("{e}"))? {
+                    None => Ok(Got::NoSuchContent),
+                    Some(r) => Ok(Got::Bytes(read_region(&r)?)),
+                }
+            }
+            Opened::Container(c) => {
+                let a = jbk::ContentAddress::new(jbk::PackId::from(pack), jbk::ContentIdx::from(content));
+                match c.get_bytes(a).map_err(|e| format!("{e}"))? {
+                    None => Ok(Got::NoSuchPack),
+                    Some(MayMissPack::MISSING(_)) => Ok(Got::Missing),
+                    Some(MayMissPack::FOUND(None)) => Ok(Got::NoSuchContent),
+                    Some(MayMissPack::FOUND(Some(r))) => Ok(Got::Bytes(read_region(&r)?)),
+                }
+            }
+        }
+    }
+    pub fn content_count(&self) -> Result<u32, String> {
+        match self {
+            Opened::Bare(p) => Ok(p.get_content_count().into_u32()),
+            Opened::Container(c) => match c.get_pack(jbk::PackId::from(1)).map_err(|e| format!("{e}"))? {
+                Some(MayMissPack::FOUND(p)) => Ok(p.get_content_count().into_u32()),
+                Some(MayMissPack::MISSING(_)) => Err("content pack MISSING".into()),
+                None => Err("no pack 1".into()),
+            },
+        }
+    }
+    pub fn check(&self) -> Result<bool, String> {
+        use jbk::Pack;
+        match self {
+            Opened::Bare(p) => p.check().map_err(|e| format!("{e}")),
+            Opened::Container(c) => c.check().map_err(|e| format!("{e}")),
+        }
+    }
+}
